@@ -1,0 +1,9 @@
+//go:build verif
+
+package s2
+
+// Read-only wrapper used by the model-based verification harness in /verif
+// (property C19). Only compiled with the "verif" build tag.
+
+// VerifRectExpanded exposes Rect.expanded.
+func VerifRectExpanded(r Rect, margin LatLng) Rect { return r.expanded(margin) }
